@@ -137,7 +137,7 @@ SPEC("pane.classes", "_make_init.<locals>.__init__",
          (lambda self, args, kwargs, sig: implies(has_attr(self, "__post_init__"), called(attr(self, "__post_init__")) == 1), ["C14"], "hook")],
      # the hook is handed a complete instance: the set-field record exists when __post_init__ runs (PaneBase.__setattr__ inside
      # the hook records into it), on the mapping path and on the constructor path alike
-     at_calls={"getattr(self, POST_INIT)": (lambda self: has_attr(self, "__pane_set__"), ["C14"])},
+     at_calls={"getattr(self, POST_INIT)": (lambda self: has_attr(self, "__pane_set__"), ["C14", "C03"])},
      invariants={
          0: lambda it, self, from_dict: forall(range(it), lambda j: getattr(self, key_at(from_dict, j)) == mget(from_dict, key_at(from_dict, j))),
          1: lambda it, self, bound_args, checked, set_fields:
